@@ -29,7 +29,8 @@ RULE = (
     "on the keyword route and the configuration route. A third of the valid cases are also run in two fresh "
     "processes (README order without 64-bit mode enabled beforehand vs 64-bit mode first): both must return float64 "
     "and agree within 1e-9 relative. Non-trivial = valid case with a boundary value or an invalid case; distinct = "
-    "case digest."
+    "case digest. In addition every listed out-of-domain (field, value) pair of every problem and solver "
+    "configuration is enumerated completely (rejection must come before anything is compiled)."
 )
 ASSUMPTIONS = [
     "NaN is not generated (the documented domains say nothing about it)",
@@ -325,3 +326,73 @@ def judge(case):
     finally:
         if tmp:
             shutil.rmtree(tmp, ignore_errors=True)
+
+
+def enumerate_run(tier, shard, nshards):
+    """Every listed out-of-domain value of every problem field and every solver field, for every solver class
+    (complete enumeration of the invalid-value tables; cheap because rejection happens before anything is compiled)."""
+    from collections import Counter
+
+    base_sp = dict(epsilon=1e-3, max_batch_size=64, verbose=0, jax_double_precision=True, checkpoint_frequency=0, max_checkpoints=1,
+                   enable_async_checkpointing=True)
+    cases = []
+    first = {}
+    for pk, pp in SMALL_PROBLEMS:
+        first.setdefault(pk, pp)
+    for pk, lst in INVALID_PROBLEM.items():
+        for f, v in lst:
+            for sk in ("vi", "pi"):
+                pp = dict(first[pk])
+                pp[f] = v
+                cases.append(dict(skind=sk, pkind=pk, pparams=pp, sparams=_valid_sp(sk, base_sp), invalid=dict(where="problem", field=f, value=v), precision=False))
+    solver_invalid = [("gamma", -1e-9), ("gamma", 1 + 1e-9), ("epsilon", 0.0), ("epsilon", -1e-3), ("max_batch_size", 0), ("max_batch_size", -1),
+                      ("checkpoint_frequency", -1), ("max_checkpoints", -1), ("verbose", -1), ("verbose", 5)]
+    for sk in SOLVERS:
+        opts = list(solver_invalid)
+        if sk == "rvi":
+            opts = [o for o in opts if o[0] != "gamma"] + [("gamma", 0.99), ("gamma", 0.0), ("gamma", 1.0001)]
+        if sk in ("vi", "pi", "sa"):
+            opts += [("convergence_test", "foo"), ("convergence_test", "SPAN")]
+        if sk == "pvi":
+            opts += [("period", 0), ("period", -1)]
+        if sk == "pi":
+            opts += [("max_eval_iter", 0), ("max_eval_iter", -5)]
+        for f, v in opts:
+            sp = _valid_sp(sk, base_sp)
+            sp[f] = v
+            cases.append(dict(skind=sk, pkind="forest", pparams=dict(first["forest"]), sparams=sp, invalid=dict(where="solver", field=f, value=v), precision=False))
+        if sk == "pvi":
+            sp = _valid_sp(sk, base_sp)
+            sp.update(gamma=1.0, period=1)
+            cases.append(dict(skind=sk, pkind="forest", pparams=dict(first["forest"]), sparams=sp, invalid=dict(where="solver", field="period", value=1), precision=False))
+    n_eval = n_nt = 0
+    classes = Counter()
+    failures, samples, seen = [], [], set()
+    for i, c in enumerate(cases):
+        if i % nshards != shard:
+            continue
+        v = judge(c)
+        n_eval += 1
+        classes["enumerated-invalid-" + c["invalid"]["where"]] += 1
+        if v["ok"]:
+            n_nt += 1
+            if len(samples) < 2:
+                samples.append(dict(skind=c["skind"], pkind=c["pkind"], invalid=c["invalid"]))
+        elif v["bucket"] not in seen:
+            seen.add(v["bucket"])
+            failures.append(dict(case=c, verdict=v))
+    return dict(evaluations=n_eval, distinct_nontrivial=n_nt, classes=dict(classes), samples=samples, failures=failures, exhaustive=True,
+                box=f"all {len(cases)} listed out-of-domain (field, value) pairs of problem and solver configurations")
+
+
+def _valid_sp(sk, base):
+    sp = dict(base)
+    if sk != "rvi":
+        sp["gamma"] = 0.9
+    if sk in ("vi", "pi", "sa"):
+        sp["convergence_test"] = "span"
+    if sk == "pvi":
+        sp["period"] = 2
+    if sk == "pi":
+        sp["max_eval_iter"] = 50
+    return sp
